@@ -69,38 +69,45 @@ Start == /\ pc = "start"
             ELSE IF ~(ListOK(Tr.A, Tr.n) /\ ListOK(Tr.B, Tr.n)) THEN Fail("malformed-output")
             ELSE \E a \in {Sentences(Tr.A)} : \E b \in {Sentences(Tr.B)} :
                  IF Tr.kind \in {"closure", "sc", "cartan", "center"} /\ \E k \in DOMAIN a : SIsZero(a[k]) THEN Fail("zero-element")
-                 ELSE /\ es' = a /\ fs' = b /\ Goto(FirstPhase(Tr.kind), 1) /\ UNCHANGED <<tid, rows, rows2, mb, acc, rel>>
+                 ELSE /\ es' = (IF Tr.kind = "sc" THEN a ELSE TLCEval([k \in DOMAIN a |-> SPrimV(a[k])]))
+                      /\ fs' = TLCEval([k \in DOMAIN b |-> SPrimV(b[k])])
+                      /\ Goto(FirstPhase(Tr.kind), 1) /\ UNCHANGED <<tid, rows, rows2, mb, acc, rel>>
 
 \* ------------------------------------------------------------------ closure
 \* E: the returned elements are linearly independent (build the echelon, one element per step)
 StepE == /\ pc = "E"
          /\ IF i > Len(es) THEN Goto("G", 1) /\ Keep
             ELSE \E r \in {Insert(rows, es[i])} :
-                 IF ~r.indep THEN Fail("output-linearly-dependent")
+                 IF r.ovf THEN Fail("skip-arithmetic-bound")
+                 ELSE IF ~r.indep THEN Fail("output-linearly-dependent")
                  ELSE rows' = r.rows /\ Goto("E", i + 1) /\ UNCHANGED <<tid, es, fs, rows2, mb, acc, rel>>
 \* G: the span contains the generators
 StepG == /\ pc = "G"
-         /\ IF \A k \in DOMAIN fs : InSpan(fs[k], rows) THEN Goto("C", 1) /\ Keep ELSE Fail("generator-not-in-span")
+         /\ \E o \in {Outcome({Reduce(fs[k], rows) : k \in DOMAIN fs})} :
+               IF o = "ovf" THEN Fail("skip-arithmetic-bound") ELSE IF o = "zero" THEN Goto("C", 1) /\ Keep ELSE Fail("generator-not-in-span")
 \* C: closed under commutators (element i against all later elements per step)
 StepC == /\ pc = "C"
          /\ IF i > Len(es) THEN Goto("M0", 1) /\ Keep
-            ELSE IF \A b \in (i + 1)..Len(es) : InSpan(IBracket(es[i], es[b]), rows) THEN Goto("C", i + 1) /\ Keep
-            ELSE Fail("not-closed-under-commutators")
+            ELSE \E o \in {Outcome({Reduce(IBracket(es[i], es[b]), rows) : b \in (i + 1)..Len(es)})} :
+                 IF o = "ovf" THEN Fail("skip-arithmetic-bound") ELSE IF o = "zero" THEN Goto("C", i + 1) /\ Keep
+                 ELSE Fail("not-closed-under-commutators")
 \* M: the model closure.  state: rows2 = echelon of the model basis mb
 RECURSIVE AddAll(_, _, _, _)
-AddAll(st, x, gens, j) == IF j > Len(gens) THEN st ELSE
-   Bind(IBracket(x, gens[j]), LAMBDA cm : Bind(Insert(st.rows, cm), LAMBDA r :
-        AddAll(IF r.indep THEN [rows |-> r.rows, basis |-> Append(st.basis, cm)] ELSE st, x, gens, j + 1)))
+AddAll(st, x, gens, j) == IF j > Len(gens) \/ st.ovf THEN st ELSE
+   Bind(SPrim(IBracket(x, gens[j])), LAMBDA cm : Bind(Insert(st.rows, cm), LAMBDA r :
+        AddAll(IF r.ovf THEN [st EXCEPT !.ovf = TRUE] ELSE IF r.indep THEN [rows |-> r.rows, basis |-> Append(st.basis, cm), ovf |-> FALSE] ELSE st, x, gens, j + 1)))
 RECURSIVE AddGens(_, _, _)
-AddGens(st, gens, j) == IF j > Len(gens) THEN st ELSE
-   Bind(Insert(st.rows, gens[j]), LAMBDA r : AddGens(IF r.indep THEN [rows |-> r.rows, basis |-> Append(st.basis, gens[j])] ELSE st, gens, j + 1))
+AddGens(st, gens, j) == IF j > Len(gens) \/ st.ovf THEN st ELSE
+   Bind(Insert(st.rows, gens[j]), LAMBDA r : AddGens(IF r.ovf THEN [st EXCEPT !.ovf = TRUE] ELSE IF r.indep THEN [rows |-> r.rows, basis |-> Append(st.basis, gens[j]), ovf |-> FALSE] ELSE st, gens, j + 1))
 StepM0 == /\ pc = "M0"
-          /\ \E st \in {AddGens([rows |-> <<>>, basis |-> <<>>], fs, 1)} :
-                  rows2' = st.rows /\ mb' = st.basis /\ Goto("M", 1) /\ UNCHANGED <<tid, es, fs, rows, acc, rel>>
+          /\ \E st \in {AddGens([rows |-> <<>>, basis |-> <<>>, ovf |-> FALSE], fs, 1)} :
+                  IF st.ovf THEN rel' = FALSE /\ Goto("end", 0) /\ UNCHANGED <<tid, es, fs, rows, rows2, mb, acc>>
+                  ELSE rows2' = st.rows /\ mb' = st.basis /\ Goto("M", 1) /\ UNCHANGED <<tid, es, fs, rows, acc, rel>>
 StepM == /\ pc = "M"
          /\ IF i > Len(mb) THEN Goto("end", 0) /\ Keep
-            ELSE \E st \in {AddAll([rows |-> rows2, basis |-> mb], mb[i], fs, 1)} :
-                 rows2' = st.rows /\ mb' = st.basis /\ Goto("M", i + 1) /\ UNCHANGED <<tid, es, fs, rows, acc, rel>>
+            ELSE \E st \in {AddAll([rows |-> rows2, basis |-> mb, ovf |-> FALSE], mb[i], fs, 1)} :
+                 IF st.ovf THEN rel' = FALSE /\ Goto("end", 0) /\ UNCHANGED <<tid, es, fs, rows, rows2, mb, acc>>
+                 ELSE rows2' = st.rows /\ mb' = st.basis /\ Goto("M", i + 1) /\ UNCHANGED <<tid, es, fs, rows, acc, rel>>
 
 \* ------------------------------------------------------ structure constants
 FShapeOK == Len(Tr.f) = Len(es) /\ \A a \in DOMAIN Tr.f : Len(Tr.f[a]) = Len(es) /\
@@ -125,11 +132,14 @@ StepS == /\ pc = "S"
 StepV == /\ pc = "V"
          /\ IF i > Len(es) THEN Goto("Q", 1) /\ Keep
             ELSE \E r \in {Insert(rows, es[i])} :
-                 IF r.indep # Tr.kept[i] THEN Fail(IF r.indep THEN "independent-sentence-rejected" ELSE "dependent-sentence-added")
+                 IF r.ovf THEN Fail("skip-arithmetic-bound")
+                 ELSE IF r.indep # Tr.kept[i] THEN Fail(IF r.indep THEN "independent-sentence-rejected" ELSE "dependent-sentence-added")
                  ELSE rows' = r.rows /\ Goto("V", i + 1) /\ UNCHANGED <<tid, es, fs, rows2, mb, acc, rel>>
 StepQ == /\ pc = "Q"
-         /\ IF \A k \in DOMAIN fs : (~InSpan(fs[k], rows)) = Tr.qans[k] THEN Goto("end", 0) /\ Keep
-            ELSE Fail(IF \E k \in DOMAIN fs : Tr.qans[k] /\ InSpan(fs[k], rows) THEN "is_independent-true-for-dependent" ELSE "is_independent-false-for-independent")
+         /\ \E qr \in {TLCEval([k \in DOMAIN fs |-> Reduce(fs[k], rows)])} :
+               IF \E k \in DOMAIN qr : SIsOvf(qr[k]) THEN Fail("skip-arithmetic-bound")
+               ELSE IF \A k \in DOMAIN qr : (~SIsZero(qr[k])) = Tr.qans[k] THEN Goto("end", 0) /\ Keep
+               ELSE Fail(IF \E k \in DOMAIN qr : Tr.qans[k] /\ SIsZero(qr[k]) THEN "is_independent-true-for-dependent" ELSE "is_independent-false-for-independent")
 
 \* ------------------------------------------------------------------- cartan
 IdxWhere(sg, v) == SelectSeq([k \in 1..Len(es) |-> k], LAMBDA k : sg[k] = v)
@@ -144,10 +154,12 @@ StepK0 == /\ pc = "K0"
 \* K2 / K3: echelons of k (rows) and m (rows2); dependent elements are skipped
 StepK2 == /\ pc = "K2"
           /\ IF i > Len(es) THEN Goto("K3", 1) /\ Keep
-             ELSE rows' = Insert(rows, es[i]).rows /\ Goto("K2", i + 1) /\ UNCHANGED <<tid, es, fs, rows2, mb, acc, rel>>
+             ELSE \E r \in {Insert(rows, es[i])} : IF r.ovf THEN Fail("skip-arithmetic-bound")
+                  ELSE rows' = r.rows /\ Goto("K2", i + 1) /\ UNCHANGED <<tid, es, fs, rows2, mb, acc, rel>>
 StepK3 == /\ pc = "K3"
           /\ IF i > Len(fs) THEN Goto("R", 1) /\ Keep
-             ELSE rows2' = Insert(rows2, fs[i]).rows /\ Goto("K3", i + 1) /\ UNCHANGED <<tid, es, fs, rows, mb, acc, rel>>
+             ELSE \E r \in {Insert(rows2, fs[i])} : IF r.ovf THEN Fail("skip-arithmetic-bound")
+                  ELSE rows2' = r.rows /\ Goto("K3", i + 1) /\ UNCHANGED <<tid, es, fs, rows, mb, acc, rel>>
 \* R: element i of k ++ m against all later ones; [k,k] in k, [k,m] in m, [m,m] in k
 El(j) == IF j <= Len(es) THEN es[j] ELSE fs[j - Len(es)]
 InK(j) == j <= Len(es)
@@ -157,9 +169,9 @@ StepR == /\ pc = "R"
                            ELSE IF Tr.chk = "na" \/ ((Tr.chk = "true") = rel) THEN ""
                            ELSE IF rel THEN "check_cartan_decomp-false-for-valid" ELSE "check_cartan_decomp-true-for-invalid"
                  /\ Goto("end", 0) /\ UNCHANGED <<tid, es, fs, rows, rows2, mb, rel>>
-            ELSE /\ rel' = (rel /\ \A j \in (i + 1)..(Len(es) + Len(fs)) :
-                               InSpan(IBracket(El(i), El(j)), IF InK(i) = InK(j) THEN rows ELSE rows2))
-                 /\ Goto("R", i + 1) /\ UNCHANGED <<tid, es, fs, rows, rows2, mb, acc>>
+            ELSE \E o \in {Outcome({Reduce(IBracket(El(i), El(j)), IF InK(i) = InK(j) THEN rows ELSE rows2) : j \in (i + 1)..(Len(es) + Len(fs))})} :
+                 IF o = "ovf" THEN Fail("skip-arithmetic-bound")
+                 ELSE rel' = (rel /\ o = "zero") /\ Goto("R", i + 1) /\ UNCHANGED <<tid, es, fs, rows, rows2, mb, acc>>
 
 \* ------------------------------------------------------------------- center
 IsWordBasis == \A k \in DOMAIN es : Cardinality(DOMAIN es[k]) = 1
@@ -170,12 +182,12 @@ StepZ == /\ pc = "Z"
                  THEN Goto("end", 0) /\ Keep ELSE Fail("center-differs")
 
 \* ---------------------------------------------------------------------- end
-Aux == IF Tr.kind = "closure" /\ acc = "" THEN (IF Len(mb) = Len(es) THEN "dim-same" ELSE "dim-differs")
+Aux == IF Tr.kind = "closure" /\ acc = "" THEN (IF ~rel THEN "dim-unknown" ELSE IF Len(mb) = Len(es) THEN "dim-same" ELSE "dim-differs")
        ELSE IF Tr.kind \in {"cartan", "cartan_check"} /\ pc = "end" /\ acc \in {"", "cartan-relations-violated", "check_cartan_decomp-false-for-valid", "check_cartan_decomp-true-for-invalid"}
             THEN (IF rel THEN "relations-hold" ELSE "relations-fail") ELSE "-"
 End == /\ pc = "end" /\ PrintT(<<"V", tid, IF acc = "" THEN "ok" ELSE acc, Aux>>) /\ pc' = "done" /\ UNCHANGED <<tid, i, es, fs, rows, rows2, mb, acc, rel>>
 Next == Start \/ StepE \/ StepG \/ StepC \/ StepM0 \/ StepM \/ StepS0 \/ StepS \/ StepV \/ StepQ \/ StepK0 \/ StepK2 \/ StepK3 \/ StepR \/ StepZ \/ End
 \* model invariants: echelons stay triangular; the model basis has as many elements as its echelon has rows
 EchelonInv == EchelonOK(rows) /\ EchelonOK(rows2)
-ModelInv == (pc \in {"M", "end"} /\ Tr.kind = "closure" /\ mb # <<>>) => Len(mb) = Len(rows2)
+ModelInv == (pc \in {"M", "end"} /\ Tr.kind = "closure" /\ mb # <<>> /\ rel) => Len(mb) = Len(rows2)
 =============================================================================
